@@ -11,6 +11,13 @@ pub enum Ty {
     U8,
     /// an integer literal without suffix
     Int,
+    /// `u32` / `u64` (the integer forms of the subtags)
+    UInt,
+    /// a likely-subtags table keyed by one / two integers (a field of the model's `Tables`)
+    Table1,
+    Table2,
+    /// a layout table: a list of integers (a field of the model's `Layout`)
+    NatList,
     Char,
     /// `&[u8]`
     Slice,
